@@ -62,6 +62,7 @@ type MongoCollections struct {
 	SlowAt    int    // native demonstrations only: this command takes 6 s
 	Dead      bool   // the server process is gone: nothing it still attempts reaches the database
 	Fired     string // name of the command the fault hit
+	FailName  string // fail every command of this name (faults in the post-commit phase, which has its own commands)
 	Trace     []string
 }
 
@@ -91,6 +92,10 @@ func (its *MongoCollections) begin(ctx iface.OrdaContext, name string) (errors.O
 	its.Trace = append(its.Trace, name)
 	if its.Dead {
 		return errors.ServerDBQuery.New(ctx.L(), "server process is gone"), func() {}
+	}
+	if its.FailName != "" && name == its.FailName {
+		its.Fired = name
+		return errors.ServerDBQuery.New(ctx.L(), "injected failure of "+name), func() {}
 	}
 	if n == its.FailAt && its.FaultMode == FaultError {
 		its.Fired = name
